@@ -21,7 +21,10 @@ THEOREMS = [
     dict(name="Snow.C11.nonvacuous", clause="hypotheses are satisfiable (trigger below the initial temperature, reached by the run)", strength="nonvacuity"),
     dict(name="Snow.C11.cn_trigger_first_2D", clause="2D: cooling ends at the first step whose coldest point is <= cnTemp, not before", strength="full"),
     dict(name="Snow.C11.coolStep2D_min_ge", clause="2D: one repaired cooling step without evaporation keeps the coldest point >= min(old coldest point, shelf) (C07 maximum principle)", strength="full"),
-    dict(name="Snow.C11.cn_Tnuc_close_2D", clause="2D (repaired, shelf/jacket, C07 stability hypotheses): cnTemp >= T_nuc_min >= min(coldest point before the step, shelf temperature)", strength="full"),
+    dict(name="Snow.C11.cn_Tnuc_close_2D", clause="2D (repaired, shelf/jacket, C07 stability hypotheses): cnTemp >= T_nuc_min >= min(coldest point before the step, shelf temperature of the step) - a maximum-principle bound that does NOT scale with dt, i.e. weaker than 'within one step's cooling' (that clause is only evaluated on real 2D runs)", strength="partial"),
+    dict(name="Snow.C11.fo_grid1D", clause="1D: with the code's dt = 0.4 dz^2/alpha_max the cooling-stage Fourier number is 0.4 alpha/alpha_max", strength="full"),
+    dict(name="Snow.C11.fo_bounds_grid1D", clause="1D: 0 <= Fo <= 1/2 whenever 0 <= alpha <= 1.25 alpha_max (discharges the CFL hypothesis from the constants)", strength="full"),
+    dict(name="Snow.C11.cn_Tnuc_close_1D_code", clause="1D: cn - stepDrop < T_nuc_min <= cn with the CFL hypothesis discharged", strength="full"),
 ]
 TRUSTED = [
     "Lean 4.33 kernel; axioms per theorem listed under coverage.axioms",
@@ -31,6 +34,7 @@ TRUSTED = [
     "2D model SnowModel/Snowing2D.lean (work package G; its test is the repaired T_k.min() <= cnTemp + 273.15); tied here by real 2D runs",
 ]
 ASSUMPTIONS = [
+    "satisfiability of the hypothesis 'the run completed' (1D: (run1D p).exc = none; 2D: S2D.run ... = .ok r) is NOT witnessed in Lean (the models need exp/pow/sqrt, there is no computable real instance and no Transc instance of Rat); it rests on the differential runs of this check, in which the compiled model and the real code both complete on the same inputs. The 0D non-vacuity theorems are concrete completed runs over the reals.",
     "trigger temperature below the initial temperature; 1D bound under the CFL hypothesis 0 <= Fo <= 1/2",
     "every step recorded (<= 10 000 steps); continuous comparisons rtol 1e-9; step indices exactly",
 ]
@@ -41,7 +45,7 @@ RULE = ("boundary inputs in every dimensionality (cnTemp = 0 and 0.0; solution.T
 EXPLANATION = ("Lean theorems about the controlled-nucleation branch of the cooling loop + differential check against "
                "Snowing.run(); the trigger condition re-evaluated on the real recorded fields")
 PARALLEL = True
-LEVEL_TEXT = ("Lean 4 theorems about executable models of _run_0D and _run_1D (exact real arithmetic), tied to /repo by a differential check. Proved in full: 0D and 1D (repaired test T_k.min() <= cnTemp + 273.15): controlled nucleation is triggered at the first step at which the product / its coldest point has reached cnTemp and not before; the reported nucleation temperature lies within one step's cooling below cnTemp (0D: exact step formula; 1D: discrete minimum principle under 0 <= Fo <= 1/2, bound = the ghost-point increments). Refuted for the unrepaired code: the test T_k.any() <= cnTemp + 273.15 is true for every field and every cnTemp >= -272.15, so nucleation fires at step 0 (general theorem + concrete witness); replayed on the real code (F4, fixes/F4.diff). 2D (SnowModel/Snowing2D.lean): trigger at the first step whose coldest point reaches cnTemp; T_nuc_min between min(previous coldest point, shelf temperature) and cnTemp for the shelf and jacket configurations under the stability hypotheses of C07. PARTIAL: for the 2D VISF configuration only the trigger theorem is proved (the one-step bound would need the evaporative ghost increment, which the 1D theorem has); real 2D runs, VISF included, are compared with the model and evaluated by the predicates.")
+LEVEL_TEXT = ("Lean 4 theorems about executable models of _run_0D and _run_1D (exact real arithmetic), tied to /repo by a differential check. Proved in full: 0D and 1D (repaired test T_k.min() <= cnTemp + 273.15): controlled nucleation is triggered at the first step at which the product / its coldest point has reached cnTemp and not before; the reported nucleation temperature lies within one step's cooling below cnTemp (0D: exact step formula; 1D: discrete minimum principle under 0 <= Fo <= 1/2, bound = the ghost-point increments). Refuted for the unrepaired code: the test T_k.any() <= cnTemp + 273.15 is true for every field and every cnTemp >= -272.15, so nucleation fires at step 0 (general theorem + concrete witness); replayed on the real code (F4, fixes/F4.diff). 2D (SnowModel/Snowing2D.lean): trigger at the first step whose coldest point reaches cnTemp; T_nuc_min between min(previous coldest point, shelf temperature) and cnTemp for the shelf and jacket configurations under the stability hypotheses of C07 - PARTIAL: this maximum-principle bound does not scale with dt, the dt-dependent 'one step's cooling' bound is proved for 0D and 1D only (1D with the CFL hypothesis discharged from the code's dt). PARTIAL: for the 2D VISF configuration only the trigger theorem is proved (the one-step bound would need the evaporative ghost increment, which the 1D theorem has); real 2D runs, VISF included, are compared with the model and evaluated by the predicates.")
 
 
 def run_impl(case):
